@@ -142,7 +142,8 @@ def subst(b: bytes, pos: int, val: int) -> bytes:
 PERMS = [(0, 2, 1), (1, 0, 2), (1, 2, 0), (2, 0, 1), (2, 1, 0)]    # orders of (accPK, id, iosPK) other than the correct one
 BREAKING = {"flip", "subst", "drop", "flip-inner", "subst-inner", "drop-inner", "wrong-ltsk", "wrong-id", "transcript", "replay-exchange",
             "mitm-inner", "pk-len", "truncate", "wrong-enc-key", "wrong-label", "dup-adjacent", "id-case"}
-PRESERVING = {"none", "reorder", "dup", "drop-state", "reorder-inner", "dup-inner"}
+# dup-inner-other: which copy of a duplicated field a decoder keeps is its own business; either outcome, but a success must be genuine
+PRESERVING = {"none", "reorder", "dup", "drop-state", "reorder-inner", "dup-inner", "dup-inner-other"}
 
 
 def make_m2(world, k, fault):
@@ -204,6 +205,10 @@ def make_m2(world, k, fault):
             inner = list(reversed(inner))
         elif name == "dup-inner":
             inner = inner + [inner[0]]
+        elif name == "dup-inner-other":
+            # a second Identifier / Signature with another value, placed after (or before) the genuine ones
+            extra = [(T_ID, b"99:99:99:99:99:99"), (T_SIG, bytes(64))][fault[1] % 2]
+            inner = inner + [extra] if fault[1] & 2 else [extra] + inner
         elif name == "wrong-ltsk":
             inner = acc.inner_m2(sign_key=ed_from_seed(h("mallory", k)))
         elif name == "wrong-id":
@@ -412,7 +417,7 @@ def full_cases(draw):
         f = [name, draw(IDS)]
     elif name == "pk-len":
         f = [name, draw(st.sampled_from([0, 1, 31, 33, "zero"]))]
-    elif name in ("transcript", "mitm-inner", "wrong-label", "truncate", "dup"):
+    elif name in ("transcript", "mitm-inner", "wrong-label", "truncate", "dup", "dup-inner-other"):
         f = [name, bit]
     else:
         f = [name]
@@ -442,7 +447,7 @@ def enum_families(tier):
     """Every fault family x both decode styles once per run, so no family depends on random choice."""
     i = 0
     for dec in ("ip", "ble"):
-        for f in (["none"], ["reorder"], ["dup", 0], ["dup", 1], ["dup", 2], ["drop-state"], ["reorder-inner"], ["dup-inner"],
+        for f in (["none"], ["reorder"], ["dup", 0], ["dup", 1], ["dup", 2], ["drop-state"], ["reorder-inner"], ["dup-inner"], *[["dup-inner-other", p] for p in range(4)],
                   ["drop", "pk"], ["drop", "enc"], ["dup-adjacent", "pk"], ["dup-adjacent", "enc"], ["drop-inner", "id"], ["drop-inner", "sig"],
                   ["wrong-ltsk"], ["wrong-id", "AA:BB:CC:DD:EE:F0"], ["wrong-id", "aa:bb:cc:dd:ee:ff"], ["id-case"],
                   *[["transcript", p] for p in range(5)], ["replay-exchange"], *[["mitm-inner", p] for p in range(3)],
